@@ -20,10 +20,12 @@ import (
 	"fmt"
 	"math/rand"
 	"os"
+	"os/exec"
 	"path/filepath"
 	"sort"
 	"strconv"
 	"strings"
+	"syscall"
 	"time"
 
 	badger "github.com/dgraph-io/badger/v4"
@@ -185,7 +187,8 @@ type crSess struct {
 	steps       int
 	stepKind    []string
 	recording   bool
-	base        int // events of earlier recordings in this session
+	intents     []string // the session's intent lines (for the real-kill child)
+	base        int      // events of earlier recordings in this session
 	st          *Stats
 }
 
@@ -669,11 +672,16 @@ func execCrash(intents []string, st *Stats) (final, outs, oracle []string) {
 			continue
 		}
 		progress(line)
+		switch w[0] {
+		case "crash", "power", "realkill", "dump", "open-ro", "close-ro", "close", "open":
+			continue // regenerated by the executor (replay of a final ops file)
+		}
 		if w[0] != "reset" && s.dir == "" {
 			emit(line, "bad-op")
 			continue
 		}
 		st.Inc("op:" + w[0])
+		s.intents = append(s.intents, line)
 		switch w[0] {
 		case "reset":
 			s.closeAll()
@@ -754,7 +762,7 @@ func execCrash(intents []string, st *Stats) (final, outs, oracle []string) {
 			}
 			s.stepKind = append(s.stepKind, "flush")
 			s.steps++
-		case "compact":
+		case "compact", "compact-none":
 			if s.db == nil {
 				emit(line, "bad-op")
 				continue
@@ -775,7 +783,7 @@ func execCrash(intents []string, st *Stats) (final, outs, oracle []string) {
 			evBefore := s.nEvents()
 			err := badger.VerifCompact(s.db, 0, this, 1.5, 1.5, nil)
 			if err != nil {
-				emit("compact-none", "none")
+				emit(fmt.Sprintf("compact-none pick=%d", lvl), "none")
 				s.stepKind = append(s.stepKind, "compact-none")
 				s.steps++
 				continue
@@ -813,7 +821,7 @@ func execCrash(intents []string, st *Stats) (final, outs, oracle []string) {
 			if len(outs) == 0 {
 				outs = []string{"-"}
 			}
-			emit(fmt.Sprintf("compact new=%s del=%s outs=%s", strings.Join(created, ","), strings.Join(deleted, ","), strings.Join(outs, ",")), s.stepTokens(s.steps, true))
+			emit(fmt.Sprintf("compact pick=%d new=%s del=%s outs=%s", lvl, strings.Join(created, ","), strings.Join(deleted, ","), strings.Join(outs, ",")), s.stepTokens(s.steps, true))
 			st.Inc(fmt.Sprintf("compact:L%d,new=%d,del=%d", this, len(created), len(deleted)))
 			s.stepKind = append(s.stepKind, "compact")
 			s.steps++
@@ -822,6 +830,8 @@ func execCrash(intents []string, st *Stats) (final, outs, oracle []string) {
 				emit(line, "bad-op")
 				continue
 			}
+			emit("reopen", "ok")
+			pre := s.allReads(s.db)
 			err := s.db.Close()
 			s.db = nil
 			closeTok := s.stepTokens(s.steps, true)
@@ -840,21 +850,32 @@ func execCrash(intents []string, st *Stats) (final, outs, oracle []string) {
 			emit("open", s.stepTokens(s.steps, false))
 			s.stepKind = append(s.stepKind, "open")
 			s.steps++
+			if got := s.allReads(s.db); got != pre {
+				fail(fmt.Sprintf("[C07-rw-reads] reads after Close + Open differ: before %.300s after %.300s", pre, got))
+			}
+			s.c11Live(fail)
 		case "c07":
 			if s.db == nil {
 				emit(line, "bad-op")
 				continue
 			}
+			emit("c07", "ok")
 			s.c07(emit, fail)
+			if s.db != nil {
+				s.c11Live(fail)
+			}
 		case "crashes":
 			kv := kvWords(w[1:])
+			emit(line, "ok")
 			s.stopRecording()
-			if s.db != nil {
-				// leave the live DB alone while images are judged
+			if kvInt(kv, "kill", 1) != 0 {
+				s.crashes(kv, emit, fail)
 			}
-			s.crashes(kv, emit, fail)
 			if s.cfg.sync && kvInt(kv, "power", 1) != 0 {
 				s.powerLoss(kv, emit, fail)
+			}
+			if n := kvInt(kv, "realkills", 0); n > 0 {
+				s.realKills(n, emit, fail)
 			}
 		default:
 			emit(line, "bad-op")
@@ -889,7 +910,7 @@ func (s *crSess) crashes(kv map[string]string, emit func(string, string), fail f
 		acked, issued := s.ackedIssued(g)
 		// sub-event images: open(O_CREAT) done, ftruncate(size) not yet; ftruncate(0) done,
 		// unlink not yet (both inside ristretto's z.OpenMmapFile / MmapFile.Delete)
-		if (e.Kind == badger.VevCreate || e.Kind == badger.VevDelete) && (strings.HasSuffix(e.file, ".mem") || strings.HasSuffix(e.file, ".vlog") || strings.HasSuffix(e.file, ".sst")) {
+		if kvInt(kv, "sub", 1) != 0 && (e.Kind == badger.VevCreate || e.Kind == badger.VevDelete) && (strings.HasSuffix(e.file, ".mem") || strings.HasSuffix(e.file, ".vlog") || strings.HasSuffix(e.file, ".sst")) {
 			var prev crImage
 			if i > 0 {
 				prev = s.snaps[i-1].clone()
@@ -972,6 +993,13 @@ func genCrashSession(rng *rand.Rand, st *Stats) []string {
 	sync := rng.Intn(3) != 0
 	if params["sync"] != "" {
 		sync = params["sync"] == "1"
+	}
+	if params["mode"] == "power" {
+		sync = true
+	}
+	pReopen, pC07 := 6, 6
+	if params["mode"] == "c07" || params["mode"] == "c11" {
+		pReopen, pC07 = 12, 12
 	}
 	memsz := pick(rng, 4096, 4096, 8192, 16384)
 	thr := pick(rng, 16, 32, 200, 200)
@@ -1059,13 +1087,26 @@ func genCrashSession(rng *rand.Rand, st *Stats) []string {
 			ops = append(ops, "flush")
 		case r < 88:
 			ops = append(ops, fmt.Sprintf("compact pick=%d", rng.Intn(4)))
-		case r < 94:
+		case r < 88+pReopen:
 			ops = append(ops, "reopen")
-		default:
+		case r < 88+pReopen+pC07:
 			ops = append(ops, "c07")
+		default:
+			ops = append(ops, "flush")
 		}
 	}
-	ops = append(ops, "crashes stride=1")
+	switch params["mode"] {
+	case "power":
+		ops = append(ops, "crashes kill=0 power=1")
+	case "c07":
+		// no crash images: close / reopen only
+	case "c11":
+		ops = append(ops, "crashes kill=1 power=0 sub=0 stride=3")
+	case "kill":
+		ops = append(ops, fmt.Sprintf("crashes kill=1 power=0 realkills=%d", kvInt(params, "realkills", 2)))
+	default:
+		ops = append(ops, "crashes kill=1 power=1")
+	}
 	return ops
 }
 
@@ -1545,4 +1586,229 @@ func (s *crSess) positions() []crPos {
 		}
 	}
 	return out
+}
+
+// c11Live: after a re-open of the live session, nextTxnTs is above every stored version.
+func (s *crSess) c11Live(fail func(string)) {
+	next := badger.VerifNextTxnTs(s.db)
+	var maxVer uint64
+	for _, e := range crDumpDB(s.db) {
+		if e.ver > maxVer {
+			maxVer = e.ver
+		}
+	}
+	if next <= maxVer {
+		fail(fmt.Sprintf("[C11-next-ts] nextTxnTs=%d after reopen, stored max version %d", next, maxVer))
+	}
+	s.st.Inc("c11:live-reopen")
+}
+
+// ---------------------------------------------------------------- real kills
+
+// realKills validates the snapshot method against the kernel: the session's workload is run
+// again in a child process (this binary, engine "crash-child") which is SIGKILLed at a random
+// persistence event or after a random delay; the directory it leaves is opened and judged like
+// a snapshot. The ack log lives outside the DB directory.
+func (s *crSess) realKills(n int, emit func(string, string), fail func(string)) {
+	exe, err := os.Executable()
+	if err != nil {
+		emit("realkill", "checked")
+		return
+	}
+	base := scratchDir()
+	defer os.RemoveAll(base)
+	script := filepath.Join(base, "child.ops")
+	var lines []string
+	hasCompact := false
+	for _, l := range s.intents {
+		w := strings.Fields(l)
+		switch w[0] {
+		case "reset", "commit", "flush", "reopen", "c07":
+			lines = append(lines, l)
+		case "compact", "compact-none":
+			lines = append(lines, l)
+			hasCompact = true
+		}
+	}
+	writeLines(script, lines)
+	rng := rand.New(rand.NewSource(int64(len(s.events))*31 + 7))
+	run := func(killat int, delay time.Duration) (dir string, acked, issued int, ok bool) {
+		dir = filepath.Join(base, fmt.Sprintf("db-%d-%d", killat, delay))
+		os.MkdirAll(dir, 0o755)
+		out := filepath.Join(base, "out")
+		os.MkdirAll(out, 0o755)
+		acklog := filepath.Join(base, fmt.Sprintf("ack-%d-%d", killat, delay))
+		cmd := exec.Command(exe, "crash-child", "-replay", script, "-out", out,
+			"-p", "dir="+dir, "-p", fmt.Sprintf("killat=%d", killat), "-p", "acklog="+acklog)
+		cmd.Env = os.Environ()
+		if err := cmd.Start(); err != nil {
+			return dir, 0, 0, false
+		}
+		if delay > 0 {
+			time.AfterFunc(delay, func() { cmd.Process.Kill() })
+		}
+		_ = cmd.Wait()
+		for _, l := range readLinesIfAny(acklog) {
+			switch strings.Fields(l)[0] {
+			case "issue":
+				issued++
+			case "ack":
+				acked++
+			}
+		}
+		return dir, acked, issued, true
+	}
+	// a full run first: how long it takes and how many events it has
+	t0 := time.Now()
+	dir, _, _, ok := run(0, 0)
+	full := time.Since(t0)
+	os.RemoveAll(dir)
+	if !ok {
+		emit("realkill", "checked")
+		return
+	}
+	total := len(s.events)
+	for i := 0; i < n; i++ {
+		killat, delay := 0, time.Duration(0)
+		if i%2 == 0 && total > 0 {
+			killat = 1 + rng.Intn(total)
+		} else {
+			delay = time.Duration(rng.Int63n(int64(full) + 1))
+			if delay == 0 {
+				delay = time.Millisecond
+			}
+		}
+		dir, acked, issued, ok := run(killat, delay)
+		if ok {
+			if issued > len(s.commits) {
+				issued = len(s.commits)
+			}
+			v := s.judgeDir(dir, "real kill", acked, issued, !hasCompact, "C08")
+			for _, f := range v.fails {
+				if strings.Contains(f, "-open]") && v.out == "err:zero-length-log" {
+					f = "[F17:zero-length-log-file] " + f
+				}
+				fail(fmt.Sprintf("real SIGKILL (event %d, delay %v): %s", killat, delay, f))
+			}
+			s.st.Inc("realkill")
+		}
+		os.RemoveAll(dir)
+		emit(fmt.Sprintf("realkill %d", i), "checked")
+	}
+}
+
+func readLinesIfAny(p string) []string {
+	b, err := os.ReadFile(p)
+	if err != nil {
+		return nil
+	}
+	var out []string
+	for _, l := range strings.Split(string(b), "\n") {
+		if strings.TrimSpace(l) != "" {
+			out = append(out, l)
+		}
+	}
+	return out
+}
+
+func init() {
+	engines["crash-child"] = &Engine{
+		Gen: func(*rand.Rand, int, *Stats) []string { return nil },
+		ExecX: func(intents []string, st *Stats) (final, outs, oracle []string) {
+			crashChild(intents)
+			return nil, nil, nil
+		},
+	}
+}
+
+// crashChild: the workload of one session on params["dir"], killing itself with SIGKILL at
+// persistence event number params["killat"] (0 = never).
+func crashChild(intents []string) {
+	dir := params["dir"]
+	killat, _ := strconv.Atoi(params["killat"])
+	ack, err := os.OpenFile(params["acklog"], os.O_CREATE|os.O_WRONLY|os.O_APPEND, 0o644)
+	if err != nil || dir == "" {
+		os.Exit(4)
+	}
+	s := &crSess{blobs: map[[20]byte][]byte{}, st: &Stats{Hist: map[string]int{}}}
+	n := 0
+	badger.VerifEventsStart(func(ev badger.VEvent) {
+		n++
+		if killat > 0 && n == killat {
+			syscall.Kill(os.Getpid(), syscall.SIGKILL)
+			select {}
+		}
+	})
+	var db *badger.DB
+	commitNo := 0
+	for _, line := range intents {
+		w := strings.Fields(line)
+		if len(w) == 0 {
+			continue
+		}
+		switch w[0] {
+		case "reset":
+			kv := kvWords(w[1:])
+			s.cfg = crCfg{sync: kvInt(kv, "sync", 1) != 0, memsz: kvInt(kv, "memsz", 8192), thr: kvInt(kv, "thr", 32),
+				vmax: kvInt(kv, "vmax", 1000), keep: kvInt(kv, "keep", 1000), l0close: kvInt(kv, "l0close", 0) != 0}
+			db, err = badger.Open(s.opts(dir))
+			if err != nil {
+				os.Exit(5)
+			}
+		case "commit":
+			ents := parseCrEnts(w[1])
+			fmt.Fprintf(ack, "issue %d\n", commitNo)
+			err := db.Update(func(txn *badger.Txn) error {
+				for _, e := range ents {
+					var err error
+					if e.del {
+						err = txn.Delete(e.key)
+					} else {
+						err = txn.Set(e.key, e.val)
+					}
+					if err != nil {
+						return err
+					}
+				}
+				return nil
+			})
+			if err == nil {
+				fmt.Fprintf(ack, "ack %d\n", commitNo)
+			}
+			commitNo++
+			for badger.VerifImmCount(db) > 0 {
+				time.Sleep(100 * time.Microsecond)
+			}
+		case "flush":
+			_ = badger.VerifFlush(db)
+		case "compact", "compact-none":
+			kv := kvWords(w[1:])
+			lvl := kvInt(kv, "pick", 0)
+			var ne []int
+			for i, l := range badger.VerifLevels(db) {
+				if len(l) > 0 {
+					ne = append(ne, i)
+				}
+			}
+			this := 0
+			if len(ne) > 0 {
+				this = ne[lvl%len(ne)]
+			}
+			badger.VerifBackdate(db, 2*time.Hour)
+			_ = badger.VerifCompact(db, 0, this, 1.5, 1.5, nil)
+		case "reopen", "c07":
+			_ = db.Close()
+			db, err = badger.Open(s.opts(dir))
+			if err != nil {
+				os.Exit(5)
+			}
+			for badger.VerifImmCount(db) > 0 {
+				time.Sleep(100 * time.Microsecond)
+			}
+		}
+	}
+	if db != nil {
+		_ = db.Close()
+	}
+	os.Exit(0)
 }
